@@ -1,8 +1,163 @@
 import ErdosVerif.Driver.Util
-namespace ErdosVerif.Driver.Ledger
-open Lean ErdosVerif.Driver
+import ErdosVerif.Model.Ledger
+/-!
+Suite "ledger": histories of operations over pools of workers (C04, and the
+ledger part of C01/C10/C13).
 
-/-- Suite handler: one JSON case in, one JSON reply out (stub until the suite is built). -/
-def handle (_j : Json) : Json := Json.mkObj [("protocol_error", Json.str "suite-not-built")]
+case:  {"suite":"ledger","init":[[[name,id|null,q]…]…],           -- one vector per worker of pool object 0
+        "ops":[{"op":…,"obj":i,…}…], "keys":[[name,id|null]…], "strats":[strategy…]}
+reply: {"obs":[{"out":"ok"|"<ExceptionClass>","ret":…,"snap":[pool…]}…]}  -- snapshot of every object after every op
+-/
+namespace ErdosVerif.Driver.Ledger
+open Lean ErdosVerif.Driver ErdosVerif.Model
+
+def parseRes (j : Json) : Except String Res := do
+  let a ← j.getArr?
+  let name ← (a[0]?.getD Json.null).getStr?
+  let id ← match a[1]?.getD Json.null with
+    | .null => pure none
+    | v => (some <$> v.getNat?)
+  return ⟨name, id⟩
+
+def parseVec (j : Json) : Except String Vec := do
+  let a ← j.getArr?
+  mapM' (fun e => do
+    let r ← parseRes e
+    let q ← ((← e.getArr?)[2]?.getD Json.null).getNat?
+    return (r, q)) a.toList
+
+def parseComp (j : Json) : Except String Comp := do
+  let a ← j.getArr?
+  let kind ← (a[0]?.getD Json.null).getStr?
+  let n ← (a[1]?.getD Json.null).getNat?
+  match kind with
+  | "task" => return .task n
+  | "profile" => return .profile n
+  | "batch" => return .batch n
+  | k => throw s!"bad comp kind {k}"
+
+def parseStrat (j : Json) : Except String Strategy := do
+  return ⟨← fldNat j "sid", ← fldBool j "batch", ← fldInt j "bs", ← fldInt j "rt", ← parseVec (← fld j "req")⟩
+
+def optNat (j : Json) (k : String) : Except String (Option Nat) :=
+  match fldOpt j k with
+  | none => pure none
+  | some v => some <$> v.getNat?
+
+def parseOp (j : Json) : Except String Op := do
+  let op ← fldStr j "op"
+  match op with
+  | "add_resource" => return .addResource (← fldNat j "w") (← parseRes (← fld j "k")) (← fldNat j "q")
+  | "allocate" => return .allocate (← fldNat j "w") (← parseRes (← fld j "k")) (← parseComp (← fld j "c")) (← fldNat j "q")
+  | "allocate_multiple" => return .allocateMultiple (← fldNat j "w") (← parseVec (← fld j "req")) (← parseComp (← fld j "c"))
+  | "deallocate" => return .deallocate (← fldNat j "w") (← parseComp (← fld j "c"))
+  | "get_allocated_res" => return .getAllocatedRes (← fldNat j "w") (← parseComp (← fld j "c"))
+  | "w_place" => return .wPlace (← fldNat j "w") (← fldNat j "t") (← parseStrat (← fld j "s"))
+  | "w_remove" => return .wRemove (← fldNat j "w") (← fldNat j "t")
+  | "w_load" => return .wLoad (← fldNat j "w") (← fldNat j "p") (← parseStrat (← fld j "s"))
+  | "w_evict" => return .wEvict (← fldNat j "w") (← fldNat j "p")
+  | "w_get_allocated" => return .wGetAllocated (← fldNat j "w") (← fldNat j "t")
+  | "step" => return .step (← fldInt j "dt")
+  | "p_place" =>
+    let strats ← mapM' parseStrat (← fldArr j "strats")
+    let s? ← match fldOpt j "s" with
+      | none => pure none
+      | some v => some <$> parseStrat v
+    return .pPlace (← fldNat j "t") strats s? (← optNat j "wid")
+  | "p_remove" => return .pRemove (← fldNat j "t")
+  | "p_load" => return .pLoad (← fldNat j "p") (← parseStrat (← fld j "s")) (← optNat j "wid")
+  | "p_evict" => return .pEvict (← fldNat j "p") (← optNat j "wid")
+  | o => throw s!"bad op {o}"
+
+def jRes (r : Res) : List Json := [Json.str r.name, jOptNat r.id]
+def jVec (v : Vec) : Json := jList (fun p => Json.arr (jRes p.1 ++ [jNat p.2]).toArray) v
+def jPairs (v : List (Res × Nat)) : Json := jVec v
+
+def jComp (w : Worker) : Comp → Json
+  | .task n => Json.str s!"t{n}"
+  | .profile n => Json.str s!"p{n}"
+  | .batch g =>
+    match w.batchTask.find? (fun p => p.2 == Comp.batch g) with
+    | some (sid, _) => Json.str s!"B{sid}"
+    | none => Json.str "Borphan"
+
+def jProf (l : AList Nat Strategy) : Json :=
+  jList (fun p => Json.arr #[jNat p.1, jInt p.2.runtime, jVec p.2.req]) l
+
+def jWorker (keys : List Res) (strats : List Strategy) (w : Worker) : Json :=
+  Json.mkObj [
+    ("avail", jVec w.res.avail),
+    ("total", jVec w.res.total),
+    ("allocs", jList (fun p => Json.arr #[jComp w p.1, jPairs p.2]) w.res.allocs),
+    ("placed", jList (fun p => Json.arr #[jNat p.1, jNat p.2.sid]) w.placed),
+    ("batches", jList (fun p => Json.arr #[jNat p.1, jList jNat (p.2.mergeSort (· ≤ ·))]) w.batches),
+    ("batch_task", jList (fun p => Json.arr #[jNat p.1, jComp w p.2]) w.batchTask),
+    ("avail_prof", jProf w.availProf),
+    ("pend_prof", jProf w.pendProf),
+    ("q_avail", jList (fun k => jNat (w.res.availQ k)) keys),
+    ("q_total", jList (fun k => jNat (w.res.totalQ k)) keys),
+    ("q_alloc", jList (fun k => jInt (w.res.allocatedQ k)) keys),
+    ("can", jList (fun s => Json.bool (w.canAccommodate s)) strats),
+    ("full", Json.bool w.isFull)]
+
+def jPool (keys : List Res) (strats : List Strategy) (p : Pool) : Json :=
+  Json.mkObj [
+    ("placed", jList (fun q => Json.arr #[jNat q.1, jNat q.2]) p.placed),
+    ("workers", jList (jWorker keys strats) p.workers),
+    ("can", jList (fun s => Json.bool (p.canAccommodate s)) strats),
+    ("full", Json.bool p.isFull)]
+
+def jOutcome : Outcome → Json
+  | .ok => Json.str "ok"
+  | .raised e => Json.str e.name
+
+/-- Return value of the Python call where it has one. -/
+def retOf (p : Pool) : Op → Json
+  | .pPlace t strats s? wid? =>
+    match (p.placeTask t strats s? wid?).2 with
+    | .ok b => Json.bool b
+    | .error _ => Json.null
+  | .getAllocatedRes w c =>
+    match p.workers[w]? with
+    | some x => jList (fun q => Json.arr (jRes q.1 ++ [jNat q.2]).toArray) (x.res.getAllocated c).2
+    | none => Json.null
+  | .wGetAllocated w t =>
+    match p.workers[w]? with
+    | some x => match (x.getAllocated t).2 with
+      | .ok l => jList (fun q => Json.arr (jRes q.1 ++ [jNat q.2]).toArray) l
+      | .error _ => Json.null
+    | none => Json.null
+  | _ => Json.null
+
+def runCase (j : Json) : Except String Json := do
+  let init ← mapM' parseVec (← fldArr j "init")
+  let keys ← mapM' parseRes (← fldArr j "keys")
+  let strats ← mapM' parseStrat (← fldArr j "strats")
+  let ops ← fldArr j "ops"
+  let mut objs : Array Pool := #[⟨init.map Worker.ofVec, []⟩]
+  let mut obs : Array Json := #[]
+  for oj in ops do
+    let name ← fldStr oj "op"
+    let oi ← fldNat oj "obj"
+    let some p := objs[oi]? | throw s!"bad obj {oi}"
+    let mut out := Json.str "ok"
+    let mut ret := Json.null
+    if name == "copy" then
+      let (c, o) := p.copy
+      out := jOutcome o
+      if o == .ok then objs := objs.push c
+    else if name == "deepcopy" then
+      objs := objs.push p.deepcopy
+    else
+      let op ← parseOp oj
+      ret := retOf p op
+      let (p', o) := p.apply op
+      objs := objs.set! oi p'
+      out := jOutcome o
+    obs := obs.push (Json.mkObj [("out", out), ("ret", ret),
+      ("snap", Json.arr (objs.map (jPool keys strats)))])
+  return Json.mkObj [("obs", Json.arr obs)]
+
+def handle (j : Json) : Json := guardE (runCase j)
 
 end ErdosVerif.Driver.Ledger
